@@ -457,8 +457,34 @@ static int sc_index_hash(sc *c)
 	return S_OK;
 }
 
-#define N_EXTRA 12
-static const char *const extra_names[N_EXTRA] = { "index_append", "index_cat", "index_dup", "index_codec", "file_info", "filters_copy", "filters_update", "strings", "header_parsers", "buffer_apis", "index_hash", "micro_enc" };
+// An Index whose Number of Records is absurd (around 2^60, where "records x sizeof(record)" no longer fits a size_t):
+// the impossible allocation has to be REQUESTED and refused (LZMA_MEM_ERROR through the allocator's natural failure)
+// or never made; what must not happen is a small wrapped-around allocation that the Records are then written past
+// (the sanitizer's job) or an lzma_index handed back.
+static int sc_index_absurd(sc *c)
+{
+	static const uint64_t counts[] = { (UINT64_C(1) << 60) - 4, (UINT64_C(1) << 60) - 3, UINT64_C(1) << 60, (UINT64_C(1) << 60) + 1, UINT64_C(1) << 61, (UINT64_C(1) << 63) - 1, UINT64_MAX / 16 + 1, UINT64_MAX / 24 };
+	int st = S_OK;
+	for (unsigned q = 0; q < 8 && st == S_OK; ++q) {
+		uint8_t buf[64]; size_t n = 0; buf[n++] = 0;
+		uint64_t v = counts[q]; while (v >= 0x80) { buf[n++] = (uint8_t)(v | 0x80); v >>= 7; } buf[n++] = (uint8_t)v;
+		for (unsigned k = 0; k < 3; ++k) { buf[n++] = (uint8_t)(20 + k); buf[n++] = (uint8_t)(30 + k); }
+		while (n & 3) buf[n++] = 0;
+		uint32_t crc = lzma_crc32(buf, n, 0); for (int i = 0; i < 4; ++i) buf[n++] = (uint8_t)(crc >> (8 * i));
+		uint64_t hl = c->m->huge_limit; c->m->huge_limit = UINT64_C(1) << 30;
+		uint64_t fi0 = c->m->n_failed_injected;
+		lzma_index *i = NULL; uint64_t ml = UINT64_MAX; size_t ip = 0;
+		lzma_ret r = lzma_index_buffer_decode(&i, &ml, &c->m->a, buf, &ip, n);
+		c->m->huge_limit = hl;
+		if (i != NULL) { lzma_index_end(i, &c->m->a); BAD(c, "lzma_index_buffer_decode returned an index for a field declaring %" PRIu64 " Records (status %s)", counts[q], lzma_ret_name(r)); }
+		if (r == LZMA_MEM_ERROR) { if (c->m->n_failed_injected > fi0) st = S_MEM; continue; }
+		if (r != LZMA_DATA_ERROR) BAD(c, "Index declaring %" PRIu64 " Records: status %s", counts[q], lzma_ret_name(r));
+	}
+	return st;
+}
+
+#define N_EXTRA 13
+static const char *const extra_names[N_EXTRA] = { "index_append", "index_cat", "index_dup", "index_codec", "file_info", "filters_copy", "filters_update", "strings", "header_parsers", "buffer_apis", "index_hash", "micro_enc", "index_absurd_count" };
 
 static int sc_micro(sc *c)
 {
@@ -489,6 +515,7 @@ static int run_scenario(sc *c, unsigned id)
 	case 0: return sc_index_append(c); case 1: return sc_index_cat(c); case 2: return sc_index_dup(c); case 3: return sc_index_codec(c);
 	case 4: return sc_file_info(c); case 5: return sc_filters_copy(c); case 6: return sc_filters_update(c); case 7: return sc_strings(c);
 	case 8: return sc_header_parsers(c); case 9: return sc_buffer_apis(c); case 10: return sc_index_hash(c); case 11: return sc_micro(c);
+	case 12: return sc_index_absurd(c);
 	}
 	return S_OK;
 }
